@@ -26,11 +26,11 @@ ASIS_INVS = 'TypeOK NoStaleHit Positional NoHole FailedFlightNotCached NoLostWai
 
 
 # ------------------------------------------------------------------------------------------------- TLC
-def _tlc_retry(module, cfg, **kw):
+def _tlc_retry(module, cfg, family=None, **kw):
     """Other builders share the machine and may pkill TLC: a run that ended without verdict is repeated."""
     r = None
     for _ in range(3):
-        r = vlib.tlc(FAMILY, module, cfg, **kw)
+        r = vlib.tlc(family or FAMILY, module, cfg, **kw)
         if r.finished or r.violated or (r.error and 'timeout' in r.error) or 'REJECTED-AT' in r.output \
                 or 'Postcondition' in r.output:
             return r
@@ -39,12 +39,13 @@ def _tlc_retry(module, cfg, **kw):
 
 
 def model(ctx, jobs, workers=3, par=5, timeout=900):
-    """jobs: (cfg, expected violated invariant or None). Runs them concurrently, books them like Ctx.run_tlc."""
+    """jobs: (cfg, expected violated invariant or None[, family, module]). Runs them concurrently, books them like Ctx.run_tlc."""
     if os.environ.get('VERIF_CACHE_SKIP_MODEL'):   # mutation self-tests only: the model does not depend on the repository
         ctx.notes.append('model checking skipped (VERIF_CACHE_SKIP_MODEL)')
         return
     with concurrent.futures.ThreadPoolExecutor(par) as ex:
-        futs = [(cfg, exp, ex.submit(_tlc_retry, 'CacheProto', cfg, workers=workers, timeout=timeout)) for cfg, exp in jobs]
+        futs = [(j[0], j[1], ex.submit(_tlc_retry, (j[3] if len(j) > 3 else 'CacheProto'), j[0], workers=workers, timeout=timeout,
+                                       family=(j[2] if len(j) > 2 else FAMILY))) for j in jobs]
         for cfg, exp, f in futs:
             r = f.result()
             ctx.tlc_runs.append(r.summary())
@@ -84,6 +85,60 @@ def generate(ctx, cfg, family, simulate=None, depth=70, seed=None, timeout=1800,
     return out
 
 
+def product(ctx, module, cfg, namer, timeout=1800):
+    """The scripted products (CachePurge.tla, CacheR6.tla): one behaviour per initial state, printed with the outcome
+    the specification predicts at every step."""
+    r = _tlc_retry(module, cfg, workers=1, timeout=timeout, collect_cases=True)
+    ctx.tlc_runs.append(dict(r.summary(), cases=len(r.cases)))
+    ctx.states += r.distinct
+    ctx.transitions += r.generated
+    if not r.ok:
+        ctx.inconclusive.append('case generation cacheproto/%s failed: %s\n%s' % (cfg, r.error or r.violated, r.output[-1500:]))
+    seen = {}
+    for c in r.cases:
+        seen.setdefault(namer(c), c)
+    return [dict(name=n, steps=c['steps'], flags=c.get('flags', []), park=c.get('park', 0)) for n, c in seen.items()]
+
+
+def purge_cases(ctx):
+    """an invalidation (write / flush) meets a key cached under 3 / 10 commands, one or two of them in flight"""
+    return product(ctx, 'CachePurge', 'Cases_purge.cfg',
+                   lambda c: 'purge-%d-%s-%s' % (c['pn'], ''.join(sorted(c['pend'])), c['inv']))
+
+
+def r6_cases(ctx):
+    """Redis 6: invalidations embedded in the EXEC reply of DoCache / DoMultiCache / DoCache(MGET)"""
+    return product(ctx, 'CacheR6', 'Cases_r6.cfg',
+                   lambda c: 'r6-%s-%s-%s%s' % (c['kind'], ''.join(k[1] for k in sorted(c['lz'])), 'f' if c['fail'] else 'n',
+                                                'p' if c['pend'] else ''))
+
+
+def race_cases(ctx):
+    """the look-up / registration race of the stores' Flight (CacheRace.tla): the delayed caller is held at the verif hook
+    between the two critical sections (scenario field park)"""
+    return product(ctx, 'CacheRace', 'Cases_race.cfg', lambda c: 'race-%s-%s' % (c['kind'], c['inv']))
+
+
+def redis6(ctx, R=None, stores=('lru', 'adapter'), only_misrouted=False, validate=True):
+    """The Redis 6 product replayed on the real client (cachedrv -mode redis6).  Every verdict carries a signature that
+    starts with `redis6-`; `redis6-misrouted-reply ...` = a call was handed a reply that is not its own (C01).
+    only_misrouted: keep only those (for checks of the reply routing that do not own the cache properties)."""
+    own = R is None
+    R = R or Runner(ctx)
+    try:
+        cases = r6_cases(ctx)
+        before = len(ctx.violations)
+        for st in stores:
+            R.scen(cases, 'r6', store=st, redis6=True, par=6, max_runs=(None if ctx.tier == 'thorough' else 12), validate=validate)
+        if only_misrouted:
+            ctx.violations[before:] = [v for v in ctx.violations[before:] if v.get('signature', '').startswith('redis6-misrouted-reply')]
+        if own and validate:
+            R.validate(par=2)
+    finally:
+        if own:
+            R.close()
+
+
 def interesting(case):
     """simulation produces many short behaviours; keep those in which something can go wrong"""
     acts = [s['a'] for s in case['steps']]
@@ -106,25 +161,37 @@ class Runner:
     def close(self):
         shutil.rmtree(self.dir, ignore_errors=True)
 
-    def _drive(self, args, timeout=900):
+    def _drive(self, args, timeout=1800):
         """run_driver is not re-entrant: absorb under a lock"""
         sub = vlib.Ctx(self.ctx.pid, self.ctx.tier, self.ctx.seed, self.ctx.level)
         rep = sub.run_driver(self.bin, args, timeout=timeout)
         with self.lock:
             if rep is not None:
                 self.ctx.absorb(rep)
-            self.ctx.inconclusive += [i for i in sub.inconclusive if rep is None or i not in (rep.get('inconclusive') or [])]
+            for i in sub.inconclusive:
+                if rep is not None and i in (rep.get('inconclusive') or []):
+                    continue
+                if rep is None and 'protocol bug, message handled out of order' in i and '-mode' in args and \
+                        args[args.index('-mode') + 1] == 'redis6':
+                    # the reader goroutine of the client met a reply nobody was waiting for and panicked: a reply that
+                    # belongs to an array was left on the wire (the driver normally sees the misrouting first)
+                    self.ctx.violation('redis6-misrouted-reply what=reader-panic op= %s' % ' '.join(
+                        '%s=%s' % (a.lstrip('-'), args[args.index(a) + 1]) for a in ('-tmode', '-store', '-flavor', '-api')),
+                        'pipe._backgroundRead panicked with "protocol bug, message handled out of order" while replaying the '
+                        'Redis 6 product: an element displaced from a broken array reply was read as a reply of its own\n' + i[-1500:])
+                    continue
+                self.ctx.inconclusive.append(i)
         return rep
 
     def scen(self, cases, family, tmode='optin', store='lru', client='single', flavor='str', api='plain', gate='',
-             invs=ALL_INVS, par=8, max_runs=None, shards=1, validate=True):
+             invs=ALL_INVS, par=8, max_runs=None, shards=1, validate=True, redis6=False, cmds=None, maxf=None):
         """Replays the behaviours on the real client.  Clients with several wires run one world per process (the
         hooks of goroutines spawned inside the client are attributed to it), hence the shards."""
         if not cases:
             return
         if client != 'single':
             shards = max(shards, min(6, (len(cases) + 19) // 20))
-        group = dict(tmode=tmode, store=store, client=client, flavor=flavor, api=api)
+        group = dict(tmode=tmode, store=store, client=client, flavor=flavor, api=api, redis6=redis6, cmds=cmds, maxf=maxf)
         jobs = []
         for sh in range(shards):
             part = cases[sh::shards]
@@ -136,8 +203,8 @@ class Runner:
             cf = os.path.join(sub, 'cases.ndjson')
             with open(cf, 'w') as f:
                 for c in part:
-                    f.write(json.dumps(dict(name=c['name'], steps=c['steps'])) + '\n')
-            args = ['-mode', 'scen', '-cases', cf, '-tracedir', sub, '-tmode', tmode, '-store', store, '-client', client,
+                    f.write(json.dumps(dict(name=c['name'], steps=c['steps'], park=c.get('park', 0))) + '\n')
+            args = ['-mode', ('redis6' if redis6 else 'scen'), '-cases', cf, '-tracedir', sub, '-tmode', tmode, '-store', store, '-client', client,
                     '-flavor', flavor, '-api', api, '-par', str(par)]
             if gate:
                 args += ['-gate', gate]
@@ -177,9 +244,54 @@ class Runner:
                     self.pending.append((p, group, family, invs))
 
     # ---- validation of everything recorded so far, concurrently
+    @staticmethod
+    def _gs(group):
+        gs = 'mode=%(tmode)s store=%(store)s flavor=%(flavor)s api=%(api)s' % group
+        return gs + (' server=redis6' if group.get('redis6') else '')
+
+    def _merge(self):
+        """One TLC run per trace configuration instead of one per recorded group (a JVM start costs more than the
+        validation of a group): the groups that are validated with the same constants and invariants are concatenated;
+        the RESET line of every run carries its family and group so that a verdict names them.  The families whose runs
+        are expected to be rejected (stale / late: the known findings) and the free-running histories (hundreds of
+        states per event) keep their own runs; a merged file holds at most ~1500 events."""
+        jobs, merged = [], {}
+        for p, g, fam, invs in self.pending:
+            if fam in ('stale', 'late', 'random'):
+                jobs.append((p, g, fam, invs))
+                continue
+            key = (g['tmode'], invs, bool(g.get('redis6')), g.get('cmds'), g.get('maxf'))
+            n = sum(1 for _ in open(p))
+            bins = merged.setdefault(key, [])
+            for b in bins:
+                if b['n'] + n <= 1500:
+                    b['n'] += n
+                    b['items'].append((p, g, fam))
+                    break
+            else:
+                bins.append(dict(n=n, items=[(p, g, fam)]))
+        for key, items in [(k, b['items']) for k, bins in merged.items() for b in bins]:
+            if len(items) == 1:
+                jobs.append((items[0][0], items[0][1], items[0][2], key[1]))
+                continue
+            self.n += 1
+            sub = os.path.join(self.dir, 'm%d' % self.n)
+            os.makedirs(sub)
+            path = os.path.join(sub, 'cache-merged-%s.ndjson' % key[0])
+            with open(path, 'w') as f:
+                for p, g, fam in items:
+                    for line in open(p):
+                        if '"ev":"RESET"' in line:
+                            d = json.loads(line)
+                            d['name'] = '%s@@%s@@%s' % (d['name'], fam, self._gs(g))
+                            line = json.dumps(d, separators=(',', ':')) + '\n'
+                        f.write(line)
+            jobs.append((path, items[0][1], 'merged', key[1]))
+        return jobs
+
     def validate(self, par=5):
         with concurrent.futures.ThreadPoolExecutor(par) as ex:
-            futs = [(p, ex.submit(self._validate_one, *p)) for p in self.pending]
+            futs = [(p, ex.submit(self._validate_one, *p)) for p in self._merge()]
             for p, f in futs:
                 for item in f.result():
                     kind = item[0]
@@ -193,28 +305,43 @@ class Runner:
                         self.ctx.inconclusive.append(item[1])
         self.pending = []
 
-    def _cfg(self, path, mode, bykey, invs):
+    def _cfg(self, path, mode, bykey, invs, group=None, race=False):
+        g = group or {}
         cfg = self.tmpl.replace('%MODE%', mode).replace('%BYKEY%', bykey).replace('%INVS%', invs)
+        cfg = cfg.replace('%RACE%', 'TRUE' if race else 'FALSE')
+        cfg = cfg.replace('%REDIS6%', 'TRUE' if g.get('redis6') else 'FALSE')
+        cfg = cfg.replace('%CMDS%', g.get('cmds') or '"g", "h", "i"').replace('%MAXF%', str(g.get('maxf') or 14))
         open(path, 'w').write(cfg)
         return path
 
-    def _tlc_trace(self, trace, mode, bykey, invs, tag):
-        cfgp = self._cfg(trace + '.%s.cfg' % tag, mode, bykey, invs)
-        r = _tlc_retry('CacheTrace', os.path.basename(cfgp), workers=1, timeout=900, files=[cfgp], env={'VERIF_TRACE': trace})
+    def _tlc_trace(self, trace, mode, bykey, invs, tag, group=None, race=False):
+        cfgp = self._cfg(trace + '.%s.cfg' % tag, mode, bykey, invs, group, race)
+        r = _tlc_retry('CacheTrace', os.path.basename(cfgp), workers=1, timeout=1800, files=[cfgp], env={'VERIF_TRACE': trace})
         return r
 
     def _validate_one(self, trace, group, family, invs):
         out = []
         lines = open(trace).read().splitlines()
-        gs = 'mode=%(tmode)s store=%(store)s flavor=%(flavor)s api=%(api)s' % group
+        gs = self._gs(group)
+
+        def run_at(pos):
+            """(start, end, name, family, group string) of the run that contains line pos (1-based)"""
+            start = max(i for i in range(pos) if '"ev":"RESET"' in lines[i])
+            end = next((i for i in range(pos, len(lines)) if '"ev":"RESET"' in lines[i]), len(lines))
+            name = json.loads(lines[start])['name']
+            if '@@' in name:
+                return (start, end) + tuple(name.split('@@'))
+            return start, end, name, family, gs
         invs_now = invs
         for attempt in range(3):
-            r = self._tlc_trace(trace, group['tmode'], 'FALSE', invs_now, 'fixed%d' % attempt)
+            r = self._tlc_trace(trace, group['tmode'], 'FALSE', invs_now, 'fixed%d' % attempt, group)
             out.append(('run', dict(r.summary(), trace_events=len(lines), family=family)))
             if r.ok:
                 return out
             if r.violated:
-                sig = 'cache-trace-invariant-%s family=%s %s' % (r.violated, family, gs)
+                at = re.findall(r'/\\ l = (\d+)', r.output)
+                fam_v, gs_v = run_at(min(int(at[-1]), len(lines)))[3:] if at else (family, gs)
+                sig = 'cache-trace-invariant-%s family=%s %s' % (r.violated, fam_v, gs_v)
                 what = ('a recorded behaviour of the real client, explained step by step by CacheTrace.tla, reaches a state '
                         'that violates %s\n%s' % (r.violated, r.output[-1800:]))
                 out.append(('violation', sig, what, dict(trace=self._keep(trace))))
@@ -230,25 +357,33 @@ class Runner:
                 return out
             pos = int(m.group(1))
             ev = json.loads(lines[pos - 1])
-            start = max(i for i in range(pos) if json.loads(lines[i])['ev'] == 'RESET')
-            end = next((i for i in range(pos, len(lines)) if json.loads(lines[i])['ev'] == 'RESET'), len(lines))
-            name = json.loads(lines[start])['name']
+            start, end, name, fam_r, gs_r = run_at(pos)
             one = trace + '.rejected%d.ndjson' % attempt
             open(one, 'w').write('\n'.join(lines[start:end]) + '\n')
             # is it the stale Cancel of DESIGN.md section 7 #16?  The specification of the code as it is explains it.
-            r2 = self._tlc_trace(one, group['tmode'], 'TRUE', ASIS_INVS, 'asis%d' % attempt)
+            r2 = self._tlc_trace(one, group['tmode'], 'TRUE', ASIS_INVS, 'asis%d' % attempt, group)
             out.append(('run', dict(r2.summary(), trace_events=end - start, family=family, note='as-is model')))
             cause = 'stale-cancel' if r2.ok else 'unexplained'
+            if not r2.ok and 'store=adapter' in gs_r:
+                # NewSimpleCacheAdapter as it is: Flight registers a flight without looking at the SimpleCache again
+                r3 = self._tlc_trace(one, group['tmode'], 'TRUE', ASIS_INVS, 'race%d' % attempt, group, race=True)
+                out.append(('run', dict(r3.summary(), trace_events=end - start, family=family, note='as-is model + RaceFlight')))
+                if r3.ok:
+                    cause = 'adapter-flight-race'
             result = ''
             if ev['ev'] == 'Ret':
                 result = ' result=' + '+'.join(sorted({('hit' if x['hit'] else 'value') if x['t'] == 'val' else 'err:' + x['e']
                                                         for x in ev['res']}))
-            sig = 'cache-trace-rejected event=%s%s cause=%s family=%s %s' % (ev['ev'], result, cause, family, gs)
+            sig = 'cache-trace-rejected event=%s%s cause=%s family=%s %s' % (ev['ev'], result, cause, fam_r, gs_r)
             what = ('run %s: no action of CacheProto.tla (CancelByKey = FALSE) explains recorded event #%d of the run: %s. '
                     % (name, pos - start, json.dumps({k: v for k, v in ev.items() if v not in (0, '', [], False)})))
             if cause == 'stale-cancel':
                 what += ('The specification of the code as it is (Cancel keyed by (key, cmd)) does explain the run: an owner '
                          'whose context ended cancelled a flight opened later by another caller.')
+            if cause == 'adapter-flight-race':
+                what += ('The specification with RaceFlight = TRUE does explain the run: adapter.Flight registered a new flight '
+                         '(a second request) although a completed, fresh entry existed -- its look-up under RLock ran before '
+                         'the entry was completed, its registration under Lock re-reads only the flights map.')
             keep = self._keep(one)
             out.append(('violation', sig, what + '\n' + r.output[-800:], dict(trace=keep, run=name)))
             # go on with the runs after the rejected one
